@@ -508,6 +508,12 @@ func genConc(prop string, seed uint64, tier string) *ConcScenario {
 	if prop == "C06" && cacheFam && g.r.Bool(0.25) {
 		g.c06MovingClock(sc)
 	}
+	if prop == "C08" && cacheFam && g.r.Bool(0.15) {
+		g.c06MovingClock(sc) // overlapping sweeps under a ticking clock: every completed sweep must be complete
+		if !sc.Ctor.CB {
+			sc.Ctor.CB = sc.Ctor.Ctor != "plain"
+		}
+	}
 	switch prop {
 	case "C05":
 		sc.Phases[0].Stall = nil
